@@ -372,6 +372,28 @@ use serde::de::value::{Error as DeError, SeqDeserializer};
 use serde::Deserialize;
 use serde_test::{assert_de_tokens, assert_ser_tokens, Token};
 
+/// A BuildHasher whose `Default` instances hash differently from one another.
+#[derive(Clone, Debug)]
+pub struct Bd(Bh);
+thread_local! {
+    static BD_SEED: std::cell::Cell<u64> = const { std::cell::Cell::new(1000) };
+}
+impl Default for Bd {
+    fn default() -> Self {
+        let s = BD_SEED.with(|c| {
+            c.set(c.get() + 1);
+            c.get()
+        });
+        Bd(Bh::new(HMode::Good, s))
+    }
+}
+impl std::hash::BuildHasher for Bd {
+    type Hasher = <Bh as std::hash::BuildHasher>::Hasher;
+    fn build_hasher(&self) -> Self::Hasher {
+        self.0.build_hasher()
+    }
+}
+
 pub fn serde(a: &Args, rep: &mut Report) {
     let sh = Shard::from_args(a);
     let mut rng = sh.rng(0x5e7de);
@@ -489,6 +511,68 @@ pub fn serde(a: &Args, rep: &mut Report) {
             };
             if back != m {
                 return Err("map round trip through MapDeserializer differs".into());
+            }
+            // a hasher type whose Default instances differ (like std's RandomState), fed by
+            // deserializers without a size hint so that the result is still mid-resize when the
+            // last element goes in: lookups must work in the result, both ways round
+            {
+                let md: serde::de::value::MapDeserializer<_, DeError> = serde::de::value::MapDeserializer::new(m.iter().map(|(a, b)| (*a, *b)).filter(|_| true));
+                let back: HashMap<u64, u64, Bd> = match HashMap::deserialize(md) {
+                    Ok(b) => b,
+                    Err(e) => return Err(format!("map deserialize (unsized) failed: {e}")),
+                };
+                if back.len() != m.len() {
+                    return Err(format!("unsized map round trip has {} elements, the original {}", back.len(), m.len()));
+                }
+                for (k, v) in m.iter() {
+                    if back.get(k) != Some(v) || !back.contains_key(k) {
+                        return Err(format!("key {k} of the original is not found in the deserialised map (per-instance hasher)"));
+                    }
+                }
+                for (k, v) in back.iter() {
+                    if m.get(k) != Some(v) {
+                        return Err(format!("deserialised map holds ({k}, {v}) which the original does not"));
+                    }
+                }
+                let sd: SeqDeserializer<_, DeError> = SeqDeserializer::new(m.keys().copied().filter(|_| true));
+                let bs: HashSet<u64, Bd> = match HashSet::deserialize(sd) {
+                    Ok(b) => b,
+                    Err(e) => return Err(format!("set deserialize (unsized) failed: {e}")),
+                };
+                if bs.len() != m.len() || m.keys().any(|k| !bs.contains(k)) || bs.iter().any(|k| !m.contains_key(k)) {
+                    return Err("unsized set round trip lost or invented elements (per-instance hasher)".into());
+                }
+            }
+            // zero-sized elements
+            {
+                let mut z: HashSet<(), Bh> = HashSet::with_hasher(Bh::default());
+                let mut zm: HashMap<(), (), Bh> = HashMap::with_hasher(Bh::default());
+                if n % 2 == 1 {
+                    z.insert(());
+                    zm.insert((), ());
+                }
+                let mut zt = vec![Token::Seq { len: Some(z.len()) }];
+                let mut zmt = vec![Token::Map { len: Some(zm.len()) }];
+                for _ in 0..z.len() {
+                    zt.push(Token::Unit);
+                    zmt.push(Token::Unit);
+                    zmt.push(Token::Unit);
+                }
+                zt.push(Token::SeqEnd);
+                zmt.push(Token::MapEnd);
+                assert_ser_tokens(&z, &zt);
+                assert_de_tokens(&z, &zt);
+                assert_ser_tokens(&zm, &zmt);
+                assert_de_tokens(&zm, &zmt);
+                let mut zp: HashSet<(), Bh> = HashSet::with_hasher(Bh::default());
+                if phase % 2 == 0 {
+                    zp.insert(());
+                }
+                let units: Vec<()> = vec![(); z.len()];
+                let zd: SeqDeserializer<_, DeError> = SeqDeserializer::new(units.into_iter());
+                if <HashSet<(), Bh> as Deserialize>::deserialize_in_place(zd, &mut zp).is_err() || zp != z {
+                    return Err("deserialize_in_place of a zero-sized-element set went wrong".into());
+                }
             }
             // wrong input shapes are rejected with the collection's own expectation text
             serde_test::assert_de_tokens_error::<HashMap<u64, u64, Bh>>(&[Token::U64(1)], "invalid type: integer `1`, expected a map");
